@@ -55,7 +55,7 @@ class Zygote:
             return cls._inst
 
     def __init__(self):
-        env = dict(os.environ, PYTHONPATH="/repo", PYTHONHASHSEED="0", PYTHONDONTWRITEBYTECODE="1", LD_PRELOAD=SO)
+        env = dict(os.environ, PYTHONPATH=os.environ.get("VERIF_REPO", "/repo"), PYTHONHASHSEED="0", PYTHONDONTWRITEBYTECODE="1", LD_PRELOAD=SO)
         env.pop("VERIF_FS_ROOT", None); env.pop("VERIF_FS_SOCK", None)
         self.p = subprocess.Popen([PY, "-u", WORKER, "--zygote"], env=env, stdin=subprocess.PIPE, stdout=subprocess.PIPE, text=True, bufsize=1)
         self.jobs = {}; self.wl = threading.Lock(); self.ids = itertools.count(1)
